@@ -141,6 +141,71 @@ for _sid, (_prop, _file, _needs, _by, _why) in R4.items():
     if _n is not None and _n > 0 and _why:
         _fv = "caught by the previous version; strengthened all the same: " + _why
     SEEDS[_sid] = dict(prop=_prop, file=_file, needs=_needs, caught_by=_by, first_version=_fv)
+
+# round 5: edge sizes, unusual-but-legal input forms, interplay of two components; "first_version" = the checks as of commit daf101d
+# (before this round) re-run against the patch (/tmp/oldrun5.sh protocol)
+R5 = {
+ "C01e": ("C01", "pool/_greedy_sampling.py (GreedySamplingTarget.query, is_queried mask)", "cold start (n_labeled < n_GSx_samples), a batch that crosses the GSx -> GSi/GSy switch and a second-phase pick stored directly before a first-phase pick", ["C01", "C14"], ""),
+ "C02e": ("C02", "pool/_greedy_sampling.py (GreedySamplingTarget.query, index translation)", "same region and same one-line change as the round-4 seed for C14 (delivered independently)", ["C02", "C01", "C14"], ""),
+ "C03e": ("C03", "stream/budgetmanager/_estimated_budget_zliobaite.py (RandomVariableUncertaintyBudgetManager.query_by_utility)", "a chunk of > 1 instances that starts with the budget exhausted and regains it inside the chunk (generator restore decided once per chunk)", ["C03"], ""),
+ "C04e": ("C04", "base.py (BudgetManager._validate_budget)", "a used manager whose budget is lowered by set_params and that continues on the stream (resolved budget_ cached)", ["C13"],
+          "outside the literal quantifier of C04 (no budget change in mid-stream is claimed there); C13 (nothing resolved earlier may survive set_params) now checks that budget_ follows set_params(budget=...)"),
+ "C05e": ("C05", "pool/_expected_error_reduction.py (ExpectedErrorReduction.query)", "random_state given as a RandomState instance: the constructor parameter itself is handed to simple_batch and consumed", ["C05", "C06"],
+          "C05 ran every query under the substituted generator, which never touches the caller's instance; it now has a lane with the real generator and a RandomState parameter whose state must not move"),
+ "C06e": ("C06", "base.py (SkactivemlClassifier._validate_data)", "the same classifier object fitted twice with an integer seed and randomness drawn in between (cost ties in predict)", ["C06"],
+          "C06 built a fresh classifier for every run; fit/predict is now also repeated on the same object"),
+ "C07e": ("C07", "pool/multiannotator/_wrapper.py (_get_order_preserving_s_query)", "a wrapped strategy that emits -inf utilities (TypiClust) together with an availability row without any annotator", ["-"],
+          "NOT ADDRESSED: the wrappers explored by C07 (RandomSampling, UncertaintySampling) never emit -inf, and the availability patterns that trigger it coincide with the open non-termination finding (empty availability row ranked into the batch); stated as a limit in DESIGN 8"),
+ "C08e": ("C08", "base.py (PoolQueryStrategy._validate_data, seed multiplier)", "a strategy with internal randomness (bootstrap in ExpectedModelChangeMaximization, MDS in CostEmbeddingAL), an integer seed and a candidate subset", ["C08"],
+          "C08 compared restrictions under the substituted generator only; restrictions are now also compared under the real generator with an integer seed"),
+ "C09e": ("C09", "pool/_discriminative_al.py (query)", "a discriminator whose missing_label is set to a non-default sentinel (None / string / 0 / 1)", ["C09"], ""),
+ "C10e": ("C10", "stream/budgetmanager/_estimated_budget_zliobaite.py (RandomBudgetManager.query_by_utility)", "NaN utilities inside a chunk of > 1 instances (charged to the simulated budget but never committed)", ["C10"], ""),
+ "C11e": ("C11", "base.py (ClassFrequencyEstimator.predict_proba)", "a row whose total frequency mass is positive but below machine epsilon (query point at moderate distance, tiny weights)", ["C11"],
+          "the far query point underflows to exactly 0; a mid-far point (mass ~1e-22) was added"),
+ "C12e": ("C12", "classifier/_parzen_window_classifier.py (fit)", "a fixed bandwidth given as np.float32 / np.int64 / 0-d array (treated like gamma='mean', so unlabeled samples change the bandwidth)", ["C12"],
+          "bandwidths were Python floats; a subject with gamma=np.float32(0.5) was added to the classifier catalogue"),
+ "C13e": ("C13", "classifier/_wrapper.py (SklearnClassifier.__sklearn_is_fitted__)", "an already fitted wrapped estimator, a predict before the first fit and then partial_fit: the caller's estimator is trained in place", ["C13"],
+          "wrapped estimators were unfitted; a subject with a prefitted, caller-owned GaussianNB (full fingerprint watched) was added"),
+ "C14e": ("C14", "pool/_epistemic_uncertainty_sampling.py (_epistemic_uncertainty_pwc)", "precompute=True and a fractional kernel frequency in (1, 2): the lookup grid is not enlarged, utilities become NaN and candidates are dropped", ["C14", "C01"], ""),
+ "C15e": ("C15", "base.py (ProbabilisticRegressor.sample_y)", "random_state=0 (falsy) is replaced by the regressor's own stateful generator", ["C15"],
+          "sample_y was called with seed 7 only; seed 0 was added"),
+ "C16e": ("C16", "utils/_label.py (is_labeled)", "an integer label array with a float-typed sentinel of integral value (-1.0, np.float64(0))", ["C16"],
+          "integer arrays came with integer sentinels only; encodings int/-1.0 and int/np.float64(0) were added"),
+ "C17e": ("C17", "utils/_selection.py (rand_argmax / rand_argmin with np.isclose)", "nearly tied weighted votes (weights ~3e5 differing by 1, or ~1e-10)", ["C18"],
+          ""),
+ "C18e": ("C18", "utils/_selection.py (rand_argmax)", "an infinite maximum (+inf present, or all non-NaN entries -inf)", ["C18"], ""),
+ "C19e": ("C19", "pool/utils.py (IndexClassifierWrapper.predict / predict_proba / predict_freq)", "use_speed_up with an unsorted or repeated list of prediction indices (silently sorted and de-duplicated)", ["C19"],
+          "predictions were requested for arange(4) only; an unsorted index list with a repetition was added"),
+ "C20e": ("C20", "pool/multiannotator/_wrapper.py (_get_order_preserving_s_query)", "batch_size > 1 and a wrapped strategy whose utility rows grow by more than 1 from step to step (CoreSet at cold start, Clue / DropQuery on unscaled features)", ["C20"],
+          "the order oracle wrapped UncertaintySampling, RandomSampling and ProbabilisticAL only; CoreSet on four samples at growing distances was added (which also surfaced a genuine defect of the wrapper with partially annotated samples, recorded as a finding)"),
+}
+_old5 = {}
+if os.path.exists("/tmp/probe/oldrun5.out"):
+    for ln in open("/tmp/probe/oldrun5.out"):
+        f = ln.split()
+        if len(f) == 3 and f[2].startswith("violations="):
+            _old5[f[0]] = int(f[2].split("=")[1])
+# old-version results of round 4: the re-run (oldrun4b, full output kept) overrides the first run where both exist
+if os.path.exists("/tmp/probe/oldrun4b.out"):
+    for ln in open("/tmp/probe/oldrun4b.out"):
+        f = ln.split()
+        if len(f) >= 3 and f[2].startswith("violations="):
+            _n = int(f[2].split("=")[1])
+            _sid = f[0]
+            if _sid in R4:
+                _prop, _file, _needs, _by, _why = R4[_sid]
+                SEEDS[_sid]["first_version"] = ("caught" if _n > 0 and not _why else "caught by the previous version; strengthened all the same: " + _why if _n > 0 else "MISSED" + (": " + _why if _why else ""))
+for _sid, (_prop, _file, _needs, _by, _why) in R5.items():
+    _n = _old5.get(_sid)
+    if _why.startswith("NOT ADDRESSED"):
+        _fv = "MISSED. " + _why
+    elif _n is None:
+        _fv = "not re-run"
+    elif _n > 0:
+        _fv = "caught" if not _why else "caught by the previous version; strengthened all the same: " + _why
+    else:
+        _fv = "MISSED" + (": " + _why if _why else "")
+    SEEDS[_sid] = dict(prop=_prop, file=_file, needs=_needs, caught_by=_by, first_version=_fv)
 INVALID = {"C02": "rand_argmax with np.isclose: FAILS skactiveml/pool/tests/test_uncertainty_sampling.py::TestUncertaintySampling::test_query under the repository's serial baseline command (it only passes under pytest-xdist, which the sub-agent used); not kept. C02 (real-seed runs) and C18 (near-tie alphabet, added because of it) both report it.",
            "C18": "identical patch to the C02 attempt (np.isclose in rand_argmax); not kept for the same reason."}
 
@@ -148,7 +213,7 @@ INVALID = {"C02": "rand_argmax with np.isclose: FAILS skactiveml/pool/tests/test
 def main():
     home = os.path.dirname(os.path.dirname(os.path.abspath(__file__)))
     for sid, m in SEEDS.items():
-        src = ("/tmp/seed4/%s_out" if sid.endswith("d") else "/tmp/seed3/%s_out" if sid.endswith("c") else "/tmp/seed/%s_out") % sid
+        src = ("/tmp/seed5/%s_out" if sid.endswith("e") else "/tmp/seed4/%s_out" if sid.endswith("d") else "/tmp/seed3/%s_out" if sid.endswith("c") else "/tmp/seed/%s_out") % sid
         dst = os.path.join(home, "seeded", sid)
         os.makedirs(dst, exist_ok=True)
         for f in ("patch.diff", "demo.py", "notes.md"):
